@@ -1,5 +1,17 @@
+//! vh-ws: WebSocket transport checks (real `async_graphql::http::WebSocket`
+//! driven by the schedule-controlled executor, judged by a trace automaton).
+
+mod c25;
+mod monitor;
+mod session;
+
 fn main() {
     let id = std::env::args().nth(1).unwrap_or_default();
-    println!("INCONCLUSIVE property={id} reason=vh-ws has no check for this property yet");
-    std::process::exit(2);
+    match id.as_str() {
+        "C25" => c25::main(),
+        other => {
+            println!("INCONCLUSIVE property={other} reason=vh-ws has no check for this property");
+            std::process::exit(2);
+        }
+    }
 }
